@@ -177,6 +177,9 @@ def check(col: Collector, tier: str):
     check_prefix_test(col, "C01.R11", repo)
     col.floor("C01.R12", 1)
     check_rescope(col, "C01.R12", repo)
+    from sa.props._tr import check_core_scope_semantics
+    col.floor("C01.R14", 20)
+    check_core_scope_semantics(col, "C01.R14", repo)
     import_obligations(col, "C01.R13", "c04", lambda o: o.rule in ("C04.R1", "C04.R2", "C04.R3", "C04.R4"),
                        "code emitted outside its guard also changes which rows are written: the guarded loop runs (and may throw) for events the guard rejects")
     import_obligations(col, "C01.R13", "c13", lambda o: o.rule in ("C13.R2", "C13.R7") or o.detail in ("binary-template", "comparison-template-and-type", "unary-template", "operands-in-order"),
